@@ -174,6 +174,9 @@ func moveOrCopy(obj *OpObj, target dom.ContainerBuilder, move bool) error {
 		_ = doRemove(&OpObj{
 			Path: *obj.From,
 		}, target)
+	} else {
+		// copied value must not share state with the source
+		n = n.Clone()
 	}
 
 	return doAdd(&OpObj{Value: n, Path: obj.Path}, target)
